@@ -409,6 +409,14 @@ def log(p):
         # log(sqrt(x)) = 0.5*log(x)
         if c == 1 and len(mono) == 1 and mono[0][1] == 1 and isinstance(mono[0][0], App) and mono[0][0].op == "sqrt":
             return Fraction(1, 2) * log(mono[0][0].args[0])
+    # log(1 - sigmoid(x)) = -softplus(x) ; log(sigmoid(x)) = -softplus(-x)   (over the reals)
+    if len(p.terms) == 2 and p.terms.get(()) == 1:
+        for mono, c in p.terms.items():
+            if mono and c == -1 and len(mono) == 1 and mono[0][1] == 1 and isinstance(mono[0][0], App) and mono[0][0].op == "sigmoid":
+                return -P(App("softplus", (mono[0][0].args[0],)))
+    sa_ = p.single_atom()
+    if sa_ is not None and isinstance(sa_, App) and sa_.op == "sigmoid":
+        return -P(App("softplus", (-P(sa_.args[0]),)))
     # log(1 + exp(x)) = softplus(x)
     if len(p.terms) == 2 and p.terms.get(()) == 1:
         for mono, c in p.terms.items():
